@@ -73,6 +73,7 @@ PROPS["C05"] = dict(
 
 # --------------------------------------------------------------------------- C07
 import jobs_e3
+import jobs_c21
 PROPS["C07"] = dict(
     functions=["revm::EvmContext::{make_call_frame, make_create_frame, make_eofcreate_frame} (crates/revm/src/context/evm_context.rs)",
                "revm::InnerEvmContext::{call_return, create_return, eofcreate_return} (crates/revm/src/context/inner_evm_context.rs)"],
@@ -98,7 +99,7 @@ PROPS["C20"] = dict(
     bounds="the has_storage query through each of the six (layer, trait) pairs, for every answer of the wrapped source (symbolic Bool); "
            "CacheDB storage / block-hash reads: every path of the four MIR bodies x every value of (account cached?, slot cached?, the four account states, "
            "wrapped account exists?) - one step from an arbitrary cache content, so any commit history that produced it is covered",
-    outside="basic / code_by_hash answers of CacheDB, every read of State (block-state database: status transitions of CacheAccount), block-hash pruning in State, "
+    outside="basic / code_by_hash answers of CacheDB, block-hash pruning in State (State::storage, load_cache_account and the CacheAccount status transitions are decided under C15), "
             "what DatabaseCommit::commit writes into the cache (hash-map backed: not encodable, see DESIGN §2); &mut T / Box<T> / &T / Arc<T> forwarding is generated by auto_impl and not re-checked",
     assumptions=_HS_ASSUME + ["read policy reference: uncached account -> wrapped database (Database::storage: zero if the wrapped account does not exist); cached slot -> cache; "
                               "uncached slot of a cached account -> zero iff account_state is NotExisting or StorageCleared, else the wrapped database",
@@ -107,13 +108,16 @@ PROPS["C20"] = dict(
           dict(name="e3::cachedb_read_policy", fn=jobs_e3.run_cache_read_policy)],
 )
 PROPS["C21"] = dict(
-    functions=_HS_FUNCS,
+    functions=_HS_FUNCS + ["JournaledState::create_account_checkpoint (crates/revm/src/journaled_state.rs): every path x all eight values of (code hash differs, nonce non-zero, has storage)"],
     bounds="as C20 for the six database layers; plus the data flow of the `address_has_storage` argument of create_account_checkpoint in both create paths "
            "(resolved through Try::branch / map_err / copies to <DB as Database>::has_storage(created_address))",
-    outside="the collision guard inside create_account_checkpoint (code hash / nonce / storage disjunction) and `nothing changed at the target`, gas consumed "
-            "by the failed create (journal + hash maps: not encodable); create transactions through Evm::transact",
-    assumptions=_HS_ASSUME,
-    jobs=[dict(name="e3::has_storage_forwarding", fn=jobs_e3.run_has_storage)],
+    outside="gas consumed by the failed create; that checkpoint_revert itself restores the state (C06); create transactions through Evm::transact; "
+            "a storage flag computed anywhere else than in the two create paths",
+    assumptions=_HS_ASSUME + ["create_account_checkpoint: checkpoint / checkpoint_revert / touch_account / mark_created / checked_add / sub_assign are events (counted, arguments "
+                              "recorded), the code-hash comparison and the nonce test are free Booleans whose operands are checked to be account.info.code_hash vs KECCAK_EMPTY "
+                              "and account.info.nonce vs 0; replay: native `create_guard` (all eight input combinations) and `create_collision`"],
+    jobs=[dict(name="e3::has_storage_forwarding", fn=jobs_e3.run_has_storage),
+          dict(name="e3::create_collision_guard", fn=jobs_c21.run_create_guard)],
 )
 
 # --------------------------------------------------------------------------- C22
@@ -385,16 +389,19 @@ CLAIMS = {
         text="For every database layer of the crate the has_storage answer is derived from the MIR of its trait impl (own body that reaches the wrapped source, or the "
              "inherited constant default) and compared by z3/cvc5 with the wrapped source's answer for all answers; a difference is replayed on the real types.",
         note="Partial: the has-storage query through every layer, and the read policy of CacheDB storage / block-hash reads (provenance flow over all paths and cache states); "
-             "State (block-state database), CacheDB basic/code reads and what commit writes are outside (hash maps). "
+             "CacheDB basic/code reads and what CacheDB::commit writes are outside (hash maps); the block-state database's storage read and first load are under C15. "
              "Five layers currently answer `false` regardless of the wrapped data: recorded in known_findings.txt.",
         technique="MIR impl scan + SMT equivalence query (z3+cvc5) per database layer; MIR provenance-flow symbolic execution + SMT path query for CacheDB reads; native replay on the real wrapper types",
         engine="smt-mir", design_ref="DESIGN.md §5 C20"),
     "C21": dict(
         text="The storage-collision input of contract creation is followed from both create paths back to <DB as Database>::has_storage(created_address) (MIR data flow, SMT "
-             "equivalence), and each database layer's has_storage answer is compared with the data it wraps (as C20).",
-        note="Partial: the guard inside create_account_checkpoint and the no-change/gas effects of a collision are outside (journal + hash maps). "
+             "equivalence), each database layer's has_storage answer is compared with the data it wraps (as C20), and create_account_checkpoint is executed symbolically "
+             "from MIR (provenance flow) against the collision rule and its bookkeeping for all guard inputs.",
+        note="Partial: (a) has-storage through every database layer, (b) the flag's data flow in both create paths, (c) the guard of create_account_checkpoint on every path: "
+             "collision <=> code hash != KECCAK_EMPTY or nonce != 0 or the flag; a collision reverts the checkpoint it took without storing to the account or journalling. "
+             "Gas consumed by the failed create and the revert's own correctness are outside. "
              "EIP-7610 is blind to storage held behind DatabaseComponents, CacheDB and State: recorded in known_findings.txt.",
-        technique="MIR data-flow resolution + SMT equivalence query (z3+cvc5); native replay on the real wrapper types",
+        technique="MIR data-flow resolution + SMT equivalence query (z3+cvc5); MIR provenance-flow symbolic execution + SMT path query for the collision guard; native replay on the real types",
         engine="smt-mir", design_ref="DESIGN.md §5 C21"),
     "C22": dict(
         text="For each of the three handler rebuild paths the MIR data flow of the reward argument passed to Handler::mainnet* is resolved and the question "
